@@ -3,6 +3,7 @@ package main
 // C17: the public primitive codecs and the varint routines.
 
 import (
+	"bytes"
 	"fmt"
 	"math"
 	"reflect"
@@ -12,7 +13,79 @@ import (
 	"github.com/philpearl/avro"
 )
 
-func init() { drivers["C17"] = driveC17 }
+func init() {
+	drivers["C17"] = driveC17
+	drivers["C17W"] = driveC17Widths
+}
+
+// driveC17Widths: the same primitives reached the way users reach them -- through codecs built from a schema for a
+// struct: every (schema primitive, Go width) pair the library supports, alone and as array items (short and long
+// arrays), with boundary values of the narrower side. Events are cs_roundtrip (judged by Trace_Codec: the bytes are
+// the Avro encoding of the value under the schema, and decoding returns the value).
+func driveC17Widths(c *driverCtx) error {
+	i64, i32, i16, i := reflect.TypeOf(int64(0)), reflect.TypeOf(int32(0)), reflect.TypeOf(int16(0)), reflect.TypeOf(int(0))
+	f32, f64, b := reflect.TypeOf(float32(0)), reflect.TypeOf(float64(0)), reflect.TypeOf(false)
+	type pair struct {
+		schema string
+		typ    reflect.Type
+		bits   int // integer values are taken from this many bits (0: not an integer)
+	}
+	pairs := []pair{
+		{`"int"`, i64, 32}, {`"int"`, i, 32}, {`"int"`, i32, 32}, {`"int"`, i16, 16},
+		{`"long"`, i64, 64}, {`"long"`, i, 64}, {`"long"`, i32, 32}, {`"long"`, i16, 16},
+		{`"float"`, f32, 0}, {`"double"`, f32, 0}, {`"double"`, f64, 0}, {`"boolean"`, b, 0},
+	}
+	set := func(v reflect.Value, bits, k int) {
+		switch v.Kind() {
+		case reflect.Int, reflect.Int16, reflect.Int32, reflect.Int64:
+			bs := intBoundaries(bits)
+			v.SetInt(bs[(k*7+3)%len(bs)])
+		case reflect.Float32:
+			ps := float32Patterns()
+			v.SetFloat(float64(math.Float32frombits(ps[k%len(ps)])))
+			if p := ps[k%len(ps)]; p&0x7f800000 == 0x7f800000 && p&0x007fffff != 0 {
+				v.SetFloat(1.5) // NaN payloads are prim.go's business, not this driver's
+			}
+		case reflect.Float64:
+			ps := float64Patterns()
+			f := math.Float64frombits(ps[k%len(ps)])
+			if f != f {
+				f = -2.25
+			}
+			v.SetFloat(f)
+		case reflect.Bool:
+			v.SetBool(k%2 == 0)
+		}
+	}
+	n := 0
+	for _, p := range pairs {
+		// alone
+		t := reflect.StructOf([]reflect.StructField{{Name: "F", Type: p.typ, Tag: `json:"f"`}, {Name: "Z", Type: i64, Tag: `json:"z"`}})
+		sj := fmt.Sprintf(`{"type":"record","name":"W%d","fields":[{"name":"f","type":%s},{"name":"z","type":"long"}]}`, n, p.schema)
+		n++
+		for k := 0; k < c.pick(40, 400); k++ {
+			v := reflect.New(t).Elem()
+			set(v.Field(0), p.bits, k)
+			v.Field(1).SetInt(int64(k))
+			emitCS(c, "C13", fmt.Sprintf("C17|width|%s|%s", p.schema, p.typ.Kind()), sj, t, v, true)
+		}
+		// as array items: short arrays and arrays long enough for any bulk path
+		ta := reflect.StructOf([]reflect.StructField{{Name: "F", Type: reflect.SliceOf(p.typ), Tag: `json:"f"`}, {Name: "Z", Type: i64, Tag: `json:"z"`}})
+		sa := fmt.Sprintf(`{"type":"record","name":"W%d","fields":[{"name":"f","type":{"type":"array","items":%s}},{"name":"z","type":"long"}]}`, n, p.schema)
+		n++
+		for _, ln := range []int{1, 2, 15, 16, 17, 33, 64, 100} {
+			v := reflect.New(ta).Elem()
+			sl := reflect.MakeSlice(ta.Field(0).Type, ln, ln)
+			for j := 0; j < ln; j++ {
+				set(sl.Index(j), p.bits, j+ln)
+			}
+			v.Field(0).Set(sl)
+			v.Field(1).SetInt(int64(ln))
+			emitCS(c, "C13", fmt.Sprintf("C17|width-array|%s|%s|len%d", p.schema, p.typ.Kind(), ln), sa, ta, v, true)
+		}
+	}
+	return nil
+}
 
 type primCodec struct {
 	name  string
@@ -316,6 +389,20 @@ func driveC17(c *driverCtx) error {
 			"op": "bufvarint", "v": projectValue(reflect.ValueOf(v)), "bytes": byteList(w.Bytes()),
 			"rv": projectValue(reflect.ValueOf(back)), "rout": errOutcome(err), "left": r.Len(),
 		})
+	}
+	// over-long and overflowing varints that are NOT at the end of the buffer (1..14 bytes follow)
+	for _, head := range [][]byte{
+		{0xFF, 0xFF, 0xFF, 0xFF, 0xFF, 0xFF, 0xFF, 0xFF, 0xFF, 0x02}, {0xFF, 0xFF, 0xFF, 0xFF, 0xFF, 0xFF, 0xFF, 0xFF, 0xFF, 0x7F},
+		{0x80, 0x80, 0x80, 0x80, 0x80, 0x80, 0x80, 0x80, 0x80, 0x02}, {0xFF, 0xFF, 0xFF, 0xFF, 0xFF, 0xFF, 0xFF, 0xFF, 0xFF, 0x01},
+		{0xFF, 0xFF, 0xFF, 0xFF, 0xFF, 0xFF, 0xFF, 0xFF, 0xFF, 0x80, 0x00}, {0x80, 0x80, 0x80, 0x80, 0x80, 0x80, 0x80, 0x80, 0x80, 0x80, 0x80, 0x01},
+		{0xFF, 0xFF, 0xFF, 0xFF, 0x1F}, {0xFF, 0xFF, 0xFF, 0xFF, 0x0F}, {0x80, 0x80, 0x04}, {0xFF, 0xFF, 0x03},
+	} {
+		for _, pad := range []int{0, 1, 2, 5, 10, 11, 14} {
+			b := append(append([]byte{}, head...), bytes.Repeat([]byte{0x2A}, pad)...)
+			for _, name := range []string{"int64", "int32", "int16"} {
+				emitPrimRead(c, byName[name], b, fmt.Sprintf("overflow-then-%d-bytes", pad))
+			}
+		}
 	}
 	// slots allocated by the codecs themselves: runs of boundary / random values per codec
 	for _, pc := range primCodecs {
